@@ -44,7 +44,8 @@ ANCHORS = [
 ]
 NOTATIONS_SINGLE = ['call', 'dunder-call', 'proxy', 'send', 'notify']
 NOTATIONS_BATCH = ['add', 'chain', 'getitem', 'batch-proxy', 'hand-built', 'hand-built-lenient', 'hand-built-extended']
-FLOORS = {'*': {**{f'notation:{n}:{k}': 20 for n in NOTATIONS_SINGLE + NOTATIONS_BATCH for k in ('sync', 'async')},
+FLOORS = {'*': {'server:application-json-encoder': 50, 'client:logging-tracer-attached': 300,
+                **{f'notation:{n}:{k}': 20 for n in NOTATIONS_SINGLE + NOTATIONS_BATCH for k in ('sync', 'async')},
                 'error-base:get_error_cls-hook': 300,
                 'all-notification-batch:sync': 5, 'all-notification-batch:async': 5, 'idgen:sequential': 100,
                 'idgen:randint': 50, 'idgen:random': 50, 'idgen:uuid': 10, 'outcome:result': 200, 'outcome:typed-error': 20,
@@ -109,9 +110,28 @@ def call_pool(rng, full):
     return pool
 
 
+class AppEncoder(pjrpc.server.JSONEncoder):
+    """the application's own encoder on the SERVER (the documented way to return sets, bytes, UUIDs ...): part of the
+    JSON normalisation of a result"""
+
+    def default(self, o):
+        if isinstance(o, (set, frozenset)):
+            return sorted(o)
+        if isinstance(o, bytes):
+            return o.decode('latin-1')
+        return super().default(o)
+
+
+APP_ENCODED = {'set': [1, 2], 'bytes': 'x'}
+
+
 def expected_of(call):
     """('result', value) / ('error', code, message|ANY, data|ABSENT|ANY) for one logical call, plus executions."""
     method, how, payload = call[:3]
+    if method == 'unenc':
+        # only generated for dispatchers that carry AppEncoder: the value a direct invocation returns, as that encoder writes it
+        what = payload[0] if how == 'args' else payload['what']
+        return ('result', APP_ENCODED[what]), [('unenc', (what,), {})]
     doc = {'jsonrpc': '2.0', 'id': 1, 'method': method}
     if payload:
         doc['params'] = payload
@@ -151,7 +171,12 @@ def check_exception(exc, want, error_cls):
 def make_client(is_async_client, w, idgen, strict, error_cls):
     transport = clientside.loopback_transport(w, is_async_client)
     cls = clientside.AsyncClient if is_async_client else clientside.SyncClient
-    return cls(transport, id_gen_impl=IDGENS[idgen], strict=strict, error_cls=error_cls)
+    kw = {}
+    if not strict or error_cls is not JsonRpcError:
+        # the library's own tracer rides along on part of the clients: it changes nothing about results or exceptions
+        from pjrpc.client.tracer import LoggingTracer
+        kw['tracers'] = [LoggingTracer()]
+    return cls(transport, id_gen_impl=IDGENS[idgen], strict=strict, error_cls=error_cls, **kw)
 
 
 def run_single(client, notation, call, is_async):
@@ -303,8 +328,12 @@ def strip_ids(doc):
     return doc
 
 
-def run_program(ctx, calls, notations, client_async, disp_async, idgen, strict, base):
-    w = serverside.get_world(disp_async, None)
+def run_program(ctx, calls, notations, client_async, disp_async, idgen, strict, base, server_encoder=False):
+    w = serverside.get_world(disp_async, None, **({'json_encoder': AppEncoder} if server_encoder else {}))
+    if server_encoder:
+        ctx.hit('server:application-json-encoder')
+    if not strict or BASES.get(base, JsonRpcError) is not JsonRpcError:
+        ctx.hit('client:logging-tracer-attached')
     error_cls = BASES.get(base, JsonRpcError)
     ck = 'async' if client_async else 'sync'
     if base == 'hooked':
@@ -447,6 +476,14 @@ def gen(ctx):
                 c[3] = rng.random() < 0.5
             notations = ['add', 'chain', 'hand-built', 'hand-built-lenient']
         yield 'program', dict(calls=calls, notations=notations, **cfg())
+    # a dispatcher with an application encoder: results only that encoder can write, next to ordinary calls
+    enc_calls = [['unenc', 'args', ['set']], ['unenc', 'kwargs', {'what': 'bytes'}], ['unenc', 'args', ['bytes']]]
+    for rep_ in range(40 if full else 10):
+        c = enc_calls[rep_ % 3]
+        yield 'program', dict(calls=[c], notations=NOTATIONS_SINGLE, server_encoder=True, **cfg())
+        calls = [list(rng.choice(enc_calls + positional_ok[:20])) + [False] for _ in range(rng.randint(1, 3))]
+        yield 'program', dict(calls=calls, notations=['add', 'chain', 'hand-built', 'batch-proxy'] + (['getitem'] if all(c_[1] == 'args' for c_ in calls) else []),
+                              server_encoder=True, **cfg())
     # batches whose earlier calls really suspend longer than later ones (completion order != request order)
     for ticks in ([3, 0], [2, 1, 0], [0, 3, 1], [3, 2, 1, 0], [1, 0, 2]):
         for _ in range(6 if full else 2):
